@@ -388,6 +388,7 @@ impl BytecodeBuilder {
                 | Op::DefineAccessorComputed { .. }
                 | Op::SuperCall { .. }
                 | Op::SuperCallSpread { .. }
+                | Op::AdoptSuperResult { .. }
                 | Op::SuperGet { .. }
                 | Op::SuperGetConst { .. }
                 | Op::SuperSet { .. }
